@@ -11,11 +11,18 @@
   Second part (below the facts): File.Read over a flat extent list WITH holes as file.go is now
   (read_sparse_*), group descriptor decoding and inode addressing (gd_*, inode_*), and the extended
   attribute entry table (xattr_*).
+
+  Third part (at the end): the SPEC reader (Model/Ext4/SpecGeom, SpecNode, SpecTree, ImageSpec: an ext4
+  reader over image bytes written from the format, run by the driver on every reference image and
+  compared with the library) — mirror = spec theorems (spec_*) and the addressing arithmetic under the
+  validity checks of ext4.Read.
 -/
 import DiskfsModel.Proofs.Ext4Reader
 import DiskfsModel.Model.Ext4.ReaderCfg
 import DiskfsModel.Proofs.Ext4SparseRead
 import DiskfsModel.Proofs.Ext4Xattr
+import DiskfsModel.Proofs.Ext4Spec
+import DiskfsModel.Model.Ext4.ImageSpec
 namespace Diskfs.Ext4.Reader.C20
 
 /-- Flattening (extentBlockFinder.blocks: concatenate the leaves, children in order, interior
@@ -545,6 +552,123 @@ def exX : XEnt := ⟨1, [102, 111, 111], 40, 3, 0⟩
 def exXbuf : Bytes := encXTable [exX] ++ zeros 44
 example : XWF exXbuf exX := by simp [XWF, exX, exXbuf, encXTable, encXEnt_length, xPad]
 example : TermOK (zeros 44) := Or.inr ⟨by decide, by decide⟩
+
+
+/-! ### the SPEC reader: mirror = spec, addressing under the validity checks of ext4.Read -/
+open Diskfs.Ext4.Spec
+
+/-- the one-pass node decoder the SPEC reader executes is the mirror of parseExtents (header, entry count
+    against the block length, 12-byte leaf / index entries with 48-bit block numbers), for all bytes -/
+theorem spec_node_decoder (b : Bytes) : seqNode b = parseNode b := seqNode_eq b
+
+/-- SEARCHING the tree from the root for one logical block (one child per level, the kernel's way, what
+    the SPEC reader does on the image) finds what a lookup in the fully decoded tree finds — for every
+    depth, every block reader, every leaf interpretation -/
+theorem spec_tree_search {α : Type} (look : List Extent → Nat → α) (rd : Nat → Option Bytes) (d : Nat)
+    (b : Bytes) (t : TreeD d) (lb : Nat) (h : decodeTree rd d b = .ok t) :
+    treeSearchG look rd d b lb = .ok (specG look d t lb) :=
+  treeSearchG_decode look rd d b t lb h
+
+/-- mirror = spec for extent trees of depth ≥ 0: on a well-formed tree that the Go reader's flattening
+    decodes, scanning the flattened list (extentBlockFinder.blocks + the scan of File.Read) maps every
+    logical block exactly as the SPEC reader's search from the root does -/
+theorem spec_tree_search_equals_flatten (rd : Nat → Option Bytes) (d : Nat) (root : Bytes) (t : TreeD d)
+    (lo hi : Nat) (hdec : decodeTree rd d root = .ok t) (hwf : TreeWF d t lo hi) (lb : Nat) :
+    flatten rd d root = .ok (mirrorBlocks d t) ∧
+    treeSearch rd d root lb = .ok (leafLookup (mirrorBlocks d t) lb) :=
+  treeSearch_flatten rd d root t lo hi hdec hwf lb
+
+/-- holes: on a list without unwritten extents the SPEC reader reads a block as data exactly where the
+    mirror maps it and as zeros (hole) exactly where the mirror maps nothing -/
+theorem spec_block_class (es : List Extent) (lb : Nat) (h : ∀ e ∈ es, e.count ≤ 32768) :
+    blockRef es lb = (match leafLookup es lb with | some p => .data p | none => .hole) :=
+  blockRef_plain es lb h
+
+/-- unwritten extents read as zeros only inside their real length (length field − 32768) -/
+theorem spec_unwritten_range (es : List Extent) (lb : Nat) (h : blockRef es lb = .unwritten) :
+    ∃ e ∈ es, e.count > 32768 ∧ e.fileBlock ≤ lb ∧ lb < e.fileBlock + (e.count - 32768) :=
+  blockRef_unwritten es lb h
+
+/-- descriptor inside the GDT: for every superblock that passes the validity checks of ext4.Read (volume
+    size `size`, 0 = unknown) every descriptor below the group count lies inside the table that was read,
+    is at least 32 bytes (64 with the 64bit feature), and the table fits the volume -/
+theorem spec_gd_inside_table (g : Geo) (size : Nat) (h : readAccepts g size = true) (grp : Nat)
+    (hg : grp < g.groupsGo) :
+    g.gdtStart ≤ g.gdOff grp ∧ g.gdOff grp + g.gdSize ≤ g.gdtStart + g.gdSize * g.groupsGo ∧
+    (0 < size → g.gdSize * g.groupsGo ≤ size) ∧ 32 ≤ g.gdSize ∧ (g.is64 = true → 64 ≤ g.gdSize) :=
+  ⟨(gd_inside_table g size h grp hg).1, (gd_inside_table g size h grp hg).2.1, (gd_inside_table g size h grp hg).2.2,
+   (readAccepts_fields g size h).2.2.1, (readAccepts_fields g size h).2.2.2.1⟩
+
+/-- inode offset inside the inode table of its group, total for every inode number: under the same checks
+    the slot is below inodesPerGroup, slot × inodeSize + inodeSize stays within the table's
+    inodesPerGroup × inodeSize bytes, and these fit the blocks of the table -/
+theorem spec_inode_inside_table (g : Geo) (size : Nat) (h : readAccepts g size = true) (n : Nat) :
+    g.inoSlot n < g.inodesPerGroup ∧
+    g.inoSlot n * g.inodeSize + g.inodeSize ≤ g.inodesPerGroup * g.inodeSize ∧
+    g.inodesPerGroup * g.inodeSize ≤ g.itableBlocks * g.blockSize :=
+  inode_inside_table g size h n
+
+/-- mirror = spec for inode addressing: readInodeRaw's ReadAt offset (with its uint32 / uint64 arithmetic)
+    is the format's offset, and it refuses exactly the numbers that are not inodes of the volume, whenever
+    a group's table is at most 2^32 bytes and ends below 2^64 -/
+theorem spec_inode_offset_equals_mirror (g : Geo) (tables : List Nat) (n : Nat) (hz : 0 < g.inodeSize)
+    (hw : g.inodesPerGroup * g.inodeSize ≤ 4294967296)
+    (ht : ∀ t ∈ tables, t * g.blockSize + g.inodesPerGroup * g.inodeSize ≤ 18446744073709551616) :
+    (inodeLoc ⟨g.blockSize, g.inodeSize, g.inodesPerGroup⟩ tables n).map (·.1) = inodeOff g tables n :=
+  inodeOff_eq_mirror g tables n hz hw ht
+
+/-- the number of groups of the format never exceeds the number superblock.blockGroupCount computes … -/
+theorem spec_groups_le (g : Geo) : g.groups ≤ g.groupsGo := groups_le_groupsGo g
+
+/-- … and can be one less: with 1 KiB blocks (first data block 1) and a block count of one above a multiple
+    of the group size the library expects one descriptor more than the volume has (mke2fs never makes such
+    a volume: it drops a last group that small) -/
+theorem cex_groups_go_one_more :
+    (⟨1024, 256, 2048, 8192, 1, 4096, 16385, 32, 0, 0x40, 0, 0⟩ : Geo).groups = 2 ∧
+    (⟨1024, 256, 2048, 8192, 1, 4096, 16385, 32, 0, 0x40, 0, 0⟩ : Geo).groupsGo = 3 := by decide
+
+/-- the table sits behind the block that holds the superblock: block 2 with 1 KiB blocks, block 1 above,
+    which is what ext4.Read computes -/
+theorem spec_gdt_start (g : Geo) (k : Nat) (h : g.blockSize = 1024 * 2 ^ k) : g.gdtStart = g.gdtStartGo := by
+  unfold Geo.gdtStart Geo.gdtStartGo
+  cases k with
+  | zero => simp [h]
+  | succ k =>
+    have h2 : 2 ≤ 2 ^ (k + 1) := by
+      have := Nat.one_le_two_pow (n := k)
+      rw [Nat.pow_succ]; omega
+    have hne : g.blockSize ≠ 1024 := by omega
+    have hdiv : 1024 / g.blockSize = 0 := Nat.div_eq_of_lt (by omega)
+    rw [if_neg hne, hdiv]
+
+/-- the validity checks the addressing theorems assume are the ones in ext4.Read now (in source order),
+    and the as-found switch of DirEntry.Info the driver follows is read from the source -/
+theorem facts_agree_read_checks :
+    Ext4Ref.readChecks = ["sb.blocksPerGroup == 0 || sb.inodesPerGroup == 0",
+      "sb.groupDescriptorSize < 32 || (sb.features.fs64Bit && sb.groupDescriptorSize < 64)",
+      "sb.inodeSize < uint16(ext2InodeSize) || uint32(sb.inodeSize) > sb.blockSize",
+      "size > 0 && sb.blockCount > uint64(size)/uint64(sb.blockSize)+1",
+      "size > 0 && gdtSize > uint64(size)", "gdtSize == 0"] ∧
+    dirInfoModeFromTypeCurrent = Ext4Ref.dirEntryInfoModeFromType := by
+  decide
+
+/-! non-vacuity -/
+def exSGeo : Geo := ⟨1024, 256, 2048, 8192, 1, 4096, 16384, 64, 0, 0xc2, 0x400, 0⟩
+example : readAccepts exSGeo 16777216 = true := by decide
+example : exSGeo.groupsGo = 2 ∧ exSGeo.groups = 2 ∧ exSGeo.gdtStart = 2048 ∧ exSGeo.gdOff 1 = 2112 := by decide
+example : inodeOff exSGeo [35, 8227] 2050 = some (8227 * 1024 + 256) := by decide
+example : inodeOff exSGeo [35, 8227] 4097 = none := by decide
+/-- a depth-1 tree: the root (in i_block) indexes one leaf block (number 7) that maps blocks 0..1 and 5 -/
+def exLeafBlk : Bytes := leEnc 2 0xf30a ++ leEnc 2 2 ++ leEnc 2 4 ++ leEnc 2 0 ++ leEnc 4 0 ++
+  (leEnc 4 0 ++ leEnc 2 2 ++ leEnc 2 0 ++ leEnc 4 100) ++ (leEnc 4 5 ++ leEnc 2 1 ++ leEnc 2 0 ++ leEnc 4 300)
+def exRootBlk : Bytes := leEnc 2 0xf30a ++ leEnc 2 1 ++ leEnc 2 4 ++ leEnc 2 1 ++ leEnc 4 0 ++
+  (leEnc 4 0 ++ leEnc 4 7 ++ leEnc 2 0 ++ leEnc 2 0) ++ zeros 36
+def exRd (n : Nat) : Option Bytes := if n = 7 then some exLeafBlk else none
+set_option maxRecDepth 8192 in
+example : flatten exRd 1 exRootBlk = .ok [⟨0, 100, 2⟩, ⟨5, 300, 1⟩] := by decide
+set_option maxRecDepth 8192 in
+example : treeSearch exRd 1 exRootBlk 5 = .ok (some 300) ∧ treeSearch exRd 1 exRootBlk 3 = .ok none := by decide
+example : blockRef [⟨0, 100, 2⟩, ⟨2, 200, 32770⟩] 3 = .unwritten ∧ blockRef [⟨0, 100, 2⟩, ⟨2, 200, 32770⟩] 4 = .hole := by decide
 
 
 end Diskfs.Ext4.Reader.C20
